@@ -7,21 +7,26 @@
 
 use std::fmt::Debug;
 
-/// Vec-backed map (used for `Headers::custom_entries` and the router table).
-#[derive(Debug, Clone)]
+/// Vec-backed map (used for `Headers::custom_entries`).  The backing Vec is never freed
+/// (`ManuallyDrop`): when a `Headers` value travels through a niche-optimised `Result` /
+/// `Option` and is then dropped by the real code, Kani 0.68 reads the capacity of an empty
+/// `Vec::new()` as non-zero and reports spurious `__rust_dealloc` failures that do not reproduce
+/// natively (trace: drop_glue::<[(String, String)]> -> RawVecInner::current_memory ->
+/// deallocate).  Leaking a few entries in a model is harmless.
+#[derive(Debug)]
 pub struct VecMap<K, V> {
-    items: Vec<(K, V)>,
+    items: std::mem::ManuallyDrop<Vec<(K, V)>>,
 }
 
 impl<K: PartialEq, V> Default for VecMap<K, V> {
     fn default() -> Self {
-        Self { items: Vec::new() }
+        Self { items: std::mem::ManuallyDrop::new(Vec::new()) }
     }
 }
 
 impl<K: PartialEq, V> VecMap<K, V> {
     pub fn new() -> Self {
-        Self { items: Vec::new() }
+        Self { items: std::mem::ManuallyDrop::new(Vec::new()) }
     }
     pub fn len(&self) -> usize {
         self.items.len()
